@@ -21,8 +21,11 @@ from concurrent.futures import ThreadPoolExecutor
 
 VERIF = os.path.dirname(os.path.dirname(os.path.abspath(__file__)))
 REPO = os.environ.get("VERIF_REPO", "/repo")
-BUILD = os.path.join(VERIF, "build")
-CACHE = os.path.join(BUILD, "cache")
+# A run against a scratch tree (VERIF_REPO=<worktree>, seeded/try_seed.sh) gets its own build directory, so that it can never swap an
+# executable under a concurrent run of the same check against /repo (or against another scratch tree); the object cache is shared - it is
+# keyed by the preprocessed text, so objects of different trees cannot be confused.
+BUILD = os.path.join(VERIF, "build") if os.path.realpath(REPO) == "/repo" else os.path.join(VERIF, "build", "scratch", os.path.basename(os.path.realpath(REPO)))
+CACHE = os.path.join(VERIF, "build", "cache")
 NCPU = int(os.environ.get("VERIF_JOBS", "16"))
 
 BASE_FLAGS = [
@@ -206,7 +209,7 @@ def finish(pid, tier, res, t0, level="model_checking", rule="", assumptions=(), 
             hits[k["signature"]][1] += 1
         else:
             new.append((sig, replay, tag))
-    rdir = os.path.join(VERIF, "replays", pid) if os.path.realpath(REPO) == "/repo" else os.path.join(BUILD, "replays_scratch", pid)
+    rdir = os.path.join(VERIF, "replays", pid) if os.path.realpath(REPO) == "/repo" else os.path.join(VERIF, "build", "replays_scratch", pid)
     lines = []
     if new or res.errors:
         os.makedirs(rdir, exist_ok=True)
